@@ -66,9 +66,35 @@ fn gen(seed: u64, idx: u64, _tier: Tier) -> Plan {
         }
         t += *rng.pick(&[5_000u64, 120_000, 450_000]);
     }
+    if fmode && rng.chance(1, 2) {
+        // traffic goes on across the reporter's first report(s): a trickle of requests until after
+        // the first interval, so that workers publish snapshots while the reporter is busy writing
+        let interval_us = plan.server.as_ref().unwrap().status_interval.unwrap() as u64 * 1_000_000;
+        let until = interval_us + 5_000_000 + rng.below(4_000_000);
+        while t < until {
+            plan.step(t, Action::Send { sock: rng.below(24) as u32, req: valid_spec(&mut rng, &mut ctr) });
+            t += 20_000 + rng.below(180_000);
+        }
+        plan.params.insert("trickle".into(), 1);
+    }
     let last = plan.last_step_us();
     plan.world.faults_until_ms = last / 1000 + 1;
-    plan.world.horizon_ms = if fmode { plan.server.as_ref().unwrap().status_interval.unwrap() as u64 * 1000 + 2_500 } else { last / 1000 + 700 };
+    if fmode {
+        let interval_ms = plan.server.as_ref().unwrap().status_interval.unwrap() as u64 * 1000;
+        if rng.chance(1, 2) {
+            // slow disk: report() takes a while
+            plan.world.faults.disk_stall = 600;
+            plan.world.faults.disk_stall_max_ms = 500;
+            plan.world.faults_until_ms = u64::MAX / 2_000_000;
+        }
+        // everything is flushed once: the last datagram is handled, the workers have published
+        // (interval/10 + jitter), the reporter has merged (1 s loop) and one more full report cycle
+        // (interval + loop granularity + stalls) has passed
+        let t_flush = last / 1000 + interval_ms / 10 + 3_000;
+        plan.world.horizon_ms = t_flush + interval_ms + 6_000;
+    } else {
+        plan.world.horizon_ms = last / 1000 + 700;
+    }
     plan
 }
 
@@ -229,15 +255,39 @@ fn check(plan: &Plan, out: &RunOut) -> CheckOut {
         if files > 0 {
             co.probe("reporter_wrote_csv");
         }
+        if files >= 2 {
+            co.probe("reporter_wrote_ge_2_files");
+        }
+        if out.world.fault_fired.get("disk_stall").copied().unwrap_or(0) > 0 {
+            co.probe("report_on_a_stalling_disk");
+        }
         let workers_pushing: std::collections::BTreeSet<usize> = v.recvs.iter().map(|q| q.task).collect();
         if workers_pushing.len() >= 2 {
             co.probe("reporter_merged_snapshots_from_ge_2_workers");
         }
         let server_alive = out.ctx.server_procs.first().map(|p| out.world.procs[*p].exit.is_none()).unwrap_or(false);
         let limit = spec.stats_limit.unwrap_or(5_000_000) as u64;
-        let may_overflow = t.len() as u64 >= limit;
+        let mut may_overflow = t.len() as u64 >= limit;
         if may_overflow {
             co.probe("stats_overflow_path_reporter");
+        }
+        // The stats queue holds 2 snapshots per worker and force_push displaces the oldest one by
+        // design. If the reporter stayed away from the queue (its 1 s sleep plus the time inside
+        // report()) for as long as it takes a worker to publish twice more, a snapshot may have
+        // been displaced: then what is persisted may only be lower.
+        let w = &out.world;
+        let visits: Vec<u64> = w
+            .history
+            .iter()
+            .filter(|r| r.task.map(|t| w.tasks[t].name == "stats-reporting").unwrap_or(false))
+            .filter(|r| matches!(r.ev, dsim::Ev::Sleep { ns: 1_000_000_000 }))
+            .map(|r| r.t)
+            .collect();
+        let longest_absence = visits.windows(2).map(|p| p[1] - p[0]).max().unwrap_or(0);
+        let publish_period = (spec.status_interval.unwrap_or(600) as u64 * dsim::SEC / 10).saturating_sub(256 * dsim::MS);
+        if longest_absence + 300 * dsim::MS >= 2 * publish_period {
+            may_overflow = true;
+            co.probe("reporter_absent_long_enough_to_displace");
         }
         if server_alive && !t.is_empty() {
             for (ip, want) in &t {
